@@ -46,6 +46,9 @@ type c05Cfg struct {
 	CancelFrac int `json:"caller_cancels_at_percent_of_wait,omitempty"`
 	// ShutDuring > 0: Shutdown is requested while that attempt is in flight (before the backend answers it)
 	ShutDuring int `json:"shutdown_during_attempt,omitempty"`
+	// Interloper > 0: right after that attempt of the request under observation has failed, ANOTHER request passes
+	// through the same exporter (no queue: a second caller) and succeeds at once; it must not change the waits of the first
+	Interloper int `json:"other_request_passes_after_attempt,omitempty"`
 }
 
 func c05Config(tp *simkit.Tape) c05Cfg {
@@ -92,6 +95,8 @@ func c05Config(tp *simkit.Tape) c05Cfg {
 	} else if tp.Chance(1, 5) {
 		c.ShutDuring = tp.Range(1, n)
 		c.Persistent = tp.Chance(1, 2)
+	} else if tp.Chance(1, 4) {
+		c.Interloper = tp.Range(1, n)
 	}
 	return c
 }
@@ -114,7 +119,16 @@ func runC05(r *simkit.Run) {
 	ad := adapterByName(cfg.Signal)
 	be := newBackend(ad, func() int64 { return time.Now().UnixNano() })
 	be.evNow = func() int { return r.Events }
-	be.deaf = func(n int) bool { return n >= 1 && n <= len(cfg.Script) && strings.HasPrefix(cfg.Script[n-1], "late:") }
+	aCalls := 0 // calls that carry the observed request (its item ids start with "i"; another caller's start with "j")
+	be.deaf = func(c *backendCall) bool {
+		for id := range c.Items {
+			if strings.HasPrefix(id, "j") {
+				return false
+			}
+		}
+		aCalls++
+		return aCalls <= len(cfg.Script) && strings.HasPrefix(cfg.Script[aCalls-1], "late:")
+	}
 	disk := NewDisk()
 	inc := disk.NewIncarnation(1)
 
@@ -404,6 +418,22 @@ func runC05(r *simkit.Run) {
 			}
 			r.Fire("advance:long", func() { time.Sleep(10 * time.Minute) })
 			continue
+		}
+		if cfg.Interloper == attempt && len(be.gate.Parked()) == 0 && !task.Done() && !cfg.Persistent {
+			// another caller's request goes through the same exporter now and is accepted at once
+			r.Count("fault.other_request_passes_through")
+			other := ad.gen(tp, &gen.IDs{Prefix: "j"}, gen.Shape{MaxResources: 1, MaxScopes: 1, MaxMetrics: 1, MaxItems: 2, NonEmpty: true})
+			tb := simkit.Go("other-caller", func(t *simkit.Task) { t.Err = exp.Consume(context.Background(), other) })
+			r.Fire("other-request", func() {})
+			for _, pid := range be.gate.Parked() {
+				if strings.HasPrefix(pid, "call:j") {
+					pid := pid
+					r.Fire("answer-other:ok", func() { be.answer(pid, nil) })
+				}
+			}
+			if !tb.Done() || tb.Err != nil {
+				r.Failf("harness", "other-request", "the other caller's request did not go through (done=%v err=%v)", tb.Done(), tb.Err)
+			}
 		}
 		if must && cfg.ShutAt == attempt && !shutFired {
 			// shutdown arrives inside the wait that follows this attempt
